@@ -41,14 +41,26 @@ fn world_for(chain: &refmodel::chain::ChainBuilder, assign: &[usize]) -> World {
 const STRIDES: [u64; 6] = [1, 256, 4096, 65_536, 1 << 32, (1 << 32) + 4096];
 
 fn world_with_stale_tails(chain: &refmodel::chain::ChainBuilder, assign: &[usize], stale_tails: bool) -> World {
-    world_numbered(chain, assign, stale_tails, 1)
+    world_numbered(chain, assign, stale_tails, 1, 0)
 }
 
-fn world_numbered(chain: &refmodel::chain::ChainBuilder, assign: &[usize], stale_tails: bool, stride: u64) -> World {
+/// `order`: physical order of the blocks inside every file - 0 ascending height, 1 descending height (the file's highest
+/// block is stored first, its physically last block is its lowest), 2 the file's highest block first, the rest ascending.
+fn world_numbered(chain: &refmodel::chain::ChainBuilder, assign: &[usize], stale_tails: bool, stride: u64, order: u8) -> World {
     use refmodel::world::{HAVE_DATA, VALID_TRANSACTIONS};
     let mut w = World::new(chain.coin);
-    for (h, b) in chain.blocks.iter().enumerate() {
-        w.add_block(assign[h] as u64 * stride, chain.first_height + h as u64, b);
+    let n = chain.blocks.len();
+    let mut hs: Vec<usize> = (0..n).collect();
+    match order {
+        1 => hs.reverse(),
+        2 => {
+            let maxh = |f: usize| (0..n).filter(|h| assign[*h] == f).max().unwrap();
+            hs.sort_by_key(|h| (if *h == maxh(assign[*h]) { 0 } else { 1 }, *h));
+        }
+        _ => {}
+    }
+    for h in hs {
+        w.add_block(assign[h] as u64 * stride, chain.first_height + h as u64, &chain.blocks[h]);
     }
     if stale_tails {
         let files: BTreeSet<usize> = assign.iter().copied().collect();
@@ -185,20 +197,25 @@ pub fn run() -> Report {
     let chain = dependent_chain(btc, 0, n);
     let parts_list = partitions(n);
     let ranges: Vec<(Option<u64>, Option<u64>)> = vec![(None, None), (Some(2), None), (None, Some(3)), (Some(1), Some(4))];
-    let mut cases: Vec<(Vec<usize>, (Option<u64>, Option<u64>), bool, u64)> = Vec::new();
+    let mut cases: Vec<(Vec<usize>, (Option<u64>, Option<u64>), bool, u64, u8)> = Vec::new();
     for p in &parts_list {
         for r in &ranges {
-            cases.push((p.clone(), *r, false, 1));
+            cases.push((p.clone(), *r, false, 1, 0));
+        }
+        // the same partition with the blocks of every file stored out of height order
+        for order in [1u8, 2] {
+            cases.push((p.clone(), (None, None), false, 1, order));
+            cases.push((p.clone(), (Some(1), Some(4)), false, 1, order));
         }
         // the same partition with a stale block at the end of every file (whole range and one mid-file range)
-        cases.push((p.clone(), (None, None), true, 1));
-        cases.push((p.clone(), (Some(2), None), true, 1));
+        cases.push((p.clone(), (None, None), true, 1, 0));
+        cases.push((p.clone(), (Some(2), None), true, 1, 0));
         // the same partition with file numbers k * stride
         for st in STRIDES.iter().skip(1) {
-            cases.push((p.clone(), (None, None), false, *st));
+            cases.push((p.clone(), (None, None), false, *st, 0));
         }
     }
-    rep.rule = format!("ALL {} set partitions of heights 0..{} into blk files (disjoint, overlapping and interleaved spans) x 4 range shapes, plus every partition again with a never-connected stale block (with data) appended to every file one height above that file's highest active block, and with file numbers k*stride for strides 256, 4096, 65536, 2^32, 2^32+4096: (1) the syscall trace of the real binary (open/close of blk files interleaved with per-height markers) is replayed through the open-set automaton of the statement and its peak compared with the model's overlap number; (2) black box: the run must succeed under RLIMIT_NOFILE = N1 + overlap - 1 with N1 calibrated on the single-file layout; plus disjoint layouts of 200 and 1200 one-block files under N1; non-trivial = distinct (partition, range) with >= 2 files", parts_list.len(), n - 1);
+    rep.rule = format!("ALL {} set partitions of heights 0..{} into blk files (disjoint, overlapping and interleaved spans) x 4 range shapes, plus every partition again with a never-connected stale block (with data) appended to every file one height above that file's highest active block, with file numbers k*stride for strides 256, 4096, 65536, 2^32, 2^32+4096, and with the blocks of every file stored in descending height order / highest block first: (1) the syscall trace of the real binary (open/close of blk files interleaved with per-height markers) is replayed through the open-set automaton of the statement and its peak compared with the model's overlap number; (2) black box: the run must succeed under RLIMIT_NOFILE = N1 + overlap - 1 with N1 calibrated on the single-file layout; plus disjoint layouts of 200 and 1200 one-block files under N1; non-trivial = distinct (partition, range) with >= 2 files", parts_list.len(), n - 1);
     rep.bound = json!({"heights": n, "partitions": parts_list.len(), "ranges": ranges.len(), "large_layouts": [200, 1200]});
     rep.assumptions = vec!["'height yet to come' is read against the whole index (a file whose remaining blocks lie beyond --end may stay open until exit)".into()];
     let root = refmodel::world::scratch_root();
@@ -223,9 +240,12 @@ pub fn run() -> Report {
     let parts = par_fold(
         &cases,
         || Report::new("C17", "e3a"),
-        |w, _i, (assign, (s0, e0), stale, stride), acc| {
+        |w, _i, (assign, (s0, e0), stale, stride, order), acc| {
             let wk = Worker::new(&root, w);
-            let world = world_numbered(&chain, assign, *stale, *stride);
+            let world = world_numbered(&chain, assign, *stale, *stride, *order);
+            if *order != 0 {
+                acc.count("partitions-with-blocks-stored-out-of-height-order-inside-the-files", 1);
+            }
             if *stride != 1 {
                 acc.count("partitions-with-strided-file-numbers", 1);
             }
@@ -240,7 +260,7 @@ pub fn run() -> Report {
             let nfiles = assign.iter().collect::<BTreeSet<_>>().len();
             acc.states += 1;
             if nfiles >= 2 {
-                acc.nontrivial.insert(h8(format!("{:?}{:?}{:?}{}{}", assign, s0, e0, stale, stride).as_bytes()));
+                acc.nontrivial.insert(h8(format!("{:?}{:?}{:?}{}{}{}", assign, s0, e0, stale, stride, order).as_bytes()));
             }
             // oracle 1: trace
             let _ = std::fs::remove_file(wk.dir.join("shim.log"));
@@ -274,7 +294,7 @@ pub fn run() -> Report {
                 acc.sample(json!({"height_to_file": assign, "range": [s, e], "trace_peak": tv.peak, "model_overlap": mp, "trace_excerpt": log.lines().filter(|l| l.starts_with("T open") || l.starts_with("T close") || l.starts_with("T marker")).take(14).map(|l| l.replace(&wk.dir.display().to_string(), "")).collect::<Vec<_>>()}));
             }
             if let Some((sig, detail)) = bad.into_iter().next() {
-                acc.disagree(&format!("trace:{}", sig), format!("height->file {:?} stale-tails {} file-number-stride {} range {:?}..{:?}: {}", assign, stale, stride, s0, e0, detail), replay_case(&world, &RunSpec::new("bitcoin", "csvdump").range(*s0, *e0), json!({"height_to_file": assign, "model_overlap": mp}), &r, &wk.dir));
+                acc.disagree(&format!("trace:{}", sig), format!("height->file {:?} stale-tails {} file-number-stride {} physical-order {} range {:?}..{:?}: {}", assign, stale, stride, order, s0, e0, detail), replay_case(&world, &RunSpec::new("bitcoin", "csvdump").range(*s0, *e0), json!({"height_to_file": assign, "model_overlap": mp}), &r, &wk.dir));
                 return;
             }
             // oracle 2: descriptor limit (whole range and one mid-file range per partition)
